@@ -133,7 +133,7 @@ class UnderlierSpot(StateIndependentFeature):
         return "underlier_log_spot" if self.log else "underlier_spot"
 
     def get(self, time_step: Optional[int] = None) -> Tensor:
-        index = [time_step] if isinstance(time_step, int) else ...
+        index = [time_step] if time_step is not None else ...
         output = self.derivative.ul().spot[:, index].unsqueeze(-1)  # type: ignore
         if self.log:
             output = output.log()
@@ -166,7 +166,7 @@ class Spot(StateIndependentFeature):
         return "log_spot" if self.log else "spot"
 
     def get(self, time_step: Optional[int] = None) -> Tensor:
-        index = [time_step] if isinstance(time_step, int) else ...
+        index = [time_step] if time_step is not None else ...
         output = self.derivative.spot[:, index].unsqueeze(-1)  # type: ignore
         if self.log:
             output = output.log()
@@ -185,7 +185,7 @@ class Volatility(StateIndependentFeature):
     name = "volatility"
 
     def get(self, time_step: Optional[int] = None) -> Tensor:
-        index = [time_step] if isinstance(time_step, int) else ...
+        index = [time_step] if time_step is not None else ...
         return self.derivative.ul().volatility[:, index].unsqueeze(-1)  # type: ignore
 
 
@@ -199,7 +199,7 @@ class Variance(StateIndependentFeature):
     name = "variance"
 
     def get(self, time_step: Optional[int]) -> Tensor:
-        index = [time_step] if isinstance(time_step, int) else ...
+        index = [time_step] if time_step is not None else ...
         return self.derivative.ul().variance[:, index].unsqueeze(-1)  # type: ignore
 
 
